@@ -1,0 +1,84 @@
+//go:build verif
+
+// Contracts for the govc verifier (/verif). Comment-only; compiled only with -tags verif.
+// firstTitle, ..., anyOptOut are defined in /verif/specs/markup.ghost.
+
+package markup
+
+//@ func NewParser(root, timingInfo)
+//@   requires root != nil && timingInfo != nil
+//@   ensures [C14] #og-len result != nil && implies(err == nil && ogParser != nil, len(result.accessors) == 3)
+//@   ensures [C14] #og-first implies(err == nil && ogParser != nil, result.accessors[0] == ogParser)
+//@   ensures [C14] #og-second implies(err == nil && ogParser != nil, typeis(result.accessors[1], *schemaorg.Parser))
+//@   ensures [C14] #og-third implies(err == nil && ogParser != nil, typeis(result.accessors[2], *iereader.Parser))
+//@   ensures [C14] #no-og-len implies(!(err == nil && ogParser != nil), len(result.accessors) == 2)
+//@   ensures [C14] #no-og-first implies(!(err == nil && ogParser != nil), typeis(result.accessors[0], *schemaorg.Parser))
+//@   ensures [C14] #no-og-second implies(!(err == nil && ogParser != nil), typeis(result.accessors[1], *iereader.Parser))
+
+//@ func (*Parser).Title()
+//@   requires ps != nil && forall(i, 0 <= i && i < len(ps.accessors), ps.accessors[i] != nil)
+//@   assigns nothing
+//@   ensures [C14] #first-non-empty result == firstTitle(ps.accessors, 0)
+//@   loop 0 invariant firstTitle(ps.accessors, 0) == firstTitle(ps.accessors, ITER)
+
+//@ func (*Parser).Type()
+//@   requires ps != nil && forall(i, 0 <= i && i < len(ps.accessors), ps.accessors[i] != nil)
+//@   assigns nothing
+//@   ensures [C14] #first-non-empty result == firstType(ps.accessors, 0)
+//@   loop 0 invariant firstType(ps.accessors, 0) == firstType(ps.accessors, ITER)
+
+//@ func (*Parser).URL()
+//@   requires ps != nil && forall(i, 0 <= i && i < len(ps.accessors), ps.accessors[i] != nil)
+//@   assigns nothing
+//@   ensures [C14] #first-non-empty result == firstURL(ps.accessors, 0)
+//@   loop 0 invariant firstURL(ps.accessors, 0) == firstURL(ps.accessors, ITER)
+
+//@ func (*Parser).Description()
+//@   requires ps != nil && forall(i, 0 <= i && i < len(ps.accessors), ps.accessors[i] != nil)
+//@   assigns nothing
+//@   ensures [C14] #first-non-empty result == firstDescription(ps.accessors, 0)
+//@   loop 0 invariant firstDescription(ps.accessors, 0) == firstDescription(ps.accessors, ITER)
+
+//@ func (*Parser).Publisher()
+//@   requires ps != nil && forall(i, 0 <= i && i < len(ps.accessors), ps.accessors[i] != nil)
+//@   assigns nothing
+//@   ensures [C14] #first-non-empty result == firstPublisher(ps.accessors, 0)
+//@   loop 0 invariant firstPublisher(ps.accessors, 0) == firstPublisher(ps.accessors, ITER)
+
+//@ func (*Parser).Copyright()
+//@   requires ps != nil && forall(i, 0 <= i && i < len(ps.accessors), ps.accessors[i] != nil)
+//@   assigns nothing
+//@   ensures [C14] #first-non-empty result == firstCopyright(ps.accessors, 0)
+//@   loop 0 invariant firstCopyright(ps.accessors, 0) == firstCopyright(ps.accessors, ITER)
+
+//@ func (*Parser).Author()
+//@   requires ps != nil && forall(i, 0 <= i && i < len(ps.accessors), ps.accessors[i] != nil)
+//@   assigns nothing
+//@   ensures [C14] #first-non-empty result == firstAuthor(ps.accessors, 0)
+//@   loop 0 invariant firstAuthor(ps.accessors, 0) == firstAuthor(ps.accessors, ITER)
+
+//@ func (*Parser).Images()
+//@   requires ps != nil && forall(i, 0 <= i && i < len(ps.accessors), ps.accessors[i] != nil)
+//@   assigns nothing
+//@   ensures [C14] #first-non-empty implies(firstImagesIdx(ps.accessors, 0) >= 0, result == ps.accessors[firstImagesIdx(ps.accessors, 0)].Images())
+//@   ensures [C14] #none implies(firstImagesIdx(ps.accessors, 0) < 0, len(result) == 0)
+//@   loop 0 invariant firstImagesIdx(ps.accessors, 0) == firstImagesIdx(ps.accessors, ITER)
+
+//@ func (*Parser).Article()
+//@   requires ps != nil && forall(i, 0 <= i && i < len(ps.accessors), ps.accessors[i] != nil)
+//@   assigns nothing
+//@   ensures [C14] #first-non-nil result == firstArticle(ps.accessors, 0)
+//@   loop 0 invariant firstArticle(ps.accessors, 0) == firstArticle(ps.accessors, ITER)
+
+//@ func (*Parser).OptOut()
+//@   requires ps != nil && forall(i, 0 <= i && i < len(ps.accessors), ps.accessors[i] != nil)
+//@   assigns nothing
+//@   ensures [C14] #any result == anyOptOut(ps.accessors, 0)
+//@   loop 0 invariant anyOptOut(ps.accessors, 0) == anyOptOut(ps.accessors, ITER)
+
+//@ func (*Parser).MarkupInfo()
+//@   requires ps != nil && forall(i, 0 <= i && i < len(ps.accessors), ps.accessors[i] != nil)
+//@   ensures [C14] #opt-out implies(anyOptOut(ps.accessors, 0), result.Title == "" && result.Type == "" && result.URL == "" && result.Description == "" && result.Publisher == "" && result.Copyright == "" && result.Author == "" && len(result.Images) == 0 && result.Article.PublishedTime == "" && result.Article.ModifiedTime == "" && result.Article.ExpirationTime == "" && result.Article.Section == "" && len(result.Article.Authors) == 0)
+//@   ensures [C14] #fields implies(!anyOptOut(ps.accessors, 0), result.Title == firstTitle(ps.accessors, 0) && result.Type == firstType(ps.accessors, 0) && result.URL == firstURL(ps.accessors, 0) && result.Description == firstDescription(ps.accessors, 0) && result.Publisher == firstPublisher(ps.accessors, 0) && result.Copyright == firstCopyright(ps.accessors, 0) && result.Author == firstAuthor(ps.accessors, 0))
+//@   ensures [C14] #article implies(!anyOptOut(ps.accessors, 0) && firstArticle(ps.accessors, 0) != 0, result.Article.Section == old(as(firstArticle(ps.accessors, 0), *data.MarkupArticle).Section) && result.Article.PublishedTime == old(as(firstArticle(ps.accessors, 0), *data.MarkupArticle).PublishedTime) && result.Article.ModifiedTime == old(as(firstArticle(ps.accessors, 0), *data.MarkupArticle).ModifiedTime) && result.Article.ExpirationTime == old(as(firstArticle(ps.accessors, 0), *data.MarkupArticle).ExpirationTime))
+//@   ensures [C14] #no-article implies(!anyOptOut(ps.accessors, 0) && firstArticle(ps.accessors, 0) == 0, result.Article.Section == "" && result.Article.PublishedTime == "" && len(result.Article.Authors) == 0)
